@@ -888,7 +888,15 @@ func (x *lcRunner) exec(o lcOp) {
 		}
 	}
 	if x.bad == "" {
+		// a bare MarkBatchComplete is the crash point between BatchFinalize and
+		// WatchMatchedAccounts in the rpc server: the restart follows at once, the
+		// watcher clause is evaluated after it
+		started := e.started
+		if o.Op == "complete" {
+			e.started = false
+		}
 		what, k := e.oracle(before, logFrom, userOp, accepted, x.hist)
+		e.started = started
 		if what != "" && strings.HasPrefix(k, "C08/i2-") && len(batchBefore) > 0 && len(e.batchAccts) == 0 &&
 			o.Op != "finalize" && o.Op != "drop" {
 			// MarkBatchComplete ran for the whole batch (bare completion, or triggered by
@@ -1283,7 +1291,10 @@ func lcRunHistory(r *Run, ops []lcOp, n int, restartAt int, tag string) []lcOp {
 	step := func(o lcOp) {
 		x.exec(o)
 		done = append(done, o)
-		if o.Op == "restart" {
+		if o.Op == "complete" {
+			x.exec(lcOp{Op: "restart"})
+		}
+		if o.Op == "restart" || o.Op == "complete" {
 			// lnd sends the current block right after the registration
 			x.exec(lcOp{Op: "block", A: 1})
 		}
